@@ -10,6 +10,7 @@ import (
 	"go/types"
 	"math"
 	"math/big"
+	"sort"
 	"strings"
 )
 
@@ -461,7 +462,7 @@ func (v *V) evalSpecBuiltin(e *Env, name string, call *ast.CallExpr) (Val, bool)
 		}
 		ne := e.sub()
 		ne.inQuant++
-		qn := fmt.Sprintf("%s_q%d", sanitize(id.Name), v.nextQ())
+		qn := fmt.Sprintf("%s_qa%d", sanitize(id.Name), v.nextQ())
 		qv := Val{T: t, S: qn}
 		ne.bound[id.Name] = qv
 		body := ne.eval(args[2])
@@ -476,6 +477,20 @@ func (v *V) evalSpecBuiltin(e *Env, name string, call *ast.CallExpr) (Val, bool)
 			return boolVal(fmt.Sprintf("(forall ((%s %s)) (=> %s %s))", qn, d.sortOf(t), inv, body.S)), true
 		}
 		return boolVal(fmt.Sprintf("(exists ((%s %s)) (and %s %s))", qn, d.sortOf(t), inv, body.S)), true
+	case "let":
+		// let(x, value, body): value is evaluated in the current state and bound to x in body
+		// (so that old(...) inside body can mention a value computed in the new state)
+		id, ok := args[0].(*ast.Ident)
+		if !ok || len(args) != 3 {
+			panic(bindErr("let(x, value, body) expected"))
+		}
+		val := e.eval(args[1])
+		if isUntyped(val.T) {
+			val = e.adapt(val, defaultType(val.T))
+		}
+		ne := e.sub()
+		ne.bound[id.Name] = val
+		return ne.eval(args[2]), true
 	case "nilp":
 		a := e.eval(args[0])
 		if _, ok := a.T.Underlying().(*types.Slice); ok {
@@ -642,6 +657,64 @@ func (v *V) applySpecFun(e *Env, sf *SpecFun, call *ast.CallExpr) Val {
 	ne.bound = map[string]Val{}
 	for i, p := range sf.Params {
 		ne.bound[p.Name] = args[i]
+	}
+	if sf.Opaque && !contains(v.spec.Reveal, sf.Name) {
+		// opaque: an uninterpreted function of the arguments and of the heap components the
+		// definition reads (found by evaluating the body once on the side)
+		saved := v.d.trackReads
+		v.d.trackReads = map[string]readDep{}
+		func() {
+			v.specDepth++
+			defer func() { v.specDepth-- }()
+			scratch := *ne
+			scratch.st = ne.st.clone()
+			scratch.inQuant++
+			scratch.eval(sf.Body)
+		}()
+		deps := v.d.trackReads
+		v.d.trackReads = saved
+		var keys []string
+		for k, dp := range deps {
+			if dp.ref != "" {
+				if _, whole := deps[dp.comp]; whole {
+					continue // the whole component is a dependency anyway
+				}
+			}
+			keys = append(keys, k)
+		}
+		// discovery order is structural (fixed by the body), unlike the text of the reference terms
+		sort.Slice(keys, func(i, j int) bool { return deps[keys[i]].seq < deps[keys[j]].seq })
+		var sorts, terms, shape []string
+		for _, k := range keys {
+			dp := deps[k]
+			if saved != nil {
+				if _, ok := saved[k]; !ok {
+					dp2 := dp
+					dp2.seq = len(saved)
+					saved[k] = dp2
+				}
+			}
+			hs := v.d.heapSorts[dp.comp]
+			cur := ne.st.heapGet(v.d, dp.comp, hs)
+			if dp.ref == "" {
+				sorts = append(sorts, hs)
+				terms = append(terms, cur)
+				shape = append(shape, dp.comp)
+			} else {
+				// the slot of one object: sort is the range of the component array
+				sorts = append(sorts, arrayRange(hs))
+				terms = append(terms, "(select "+cur+" "+dp.ref+")")
+				shape = append(shape, dp.comp+"@")
+			}
+		}
+		for _, a := range args {
+			sorts = append(sorts, v.d.sortOf(a.T))
+			terms = append(terms, a.S)
+		}
+		name := "op_" + sf.Name + "_" + sanitize(strings.Join(shape, "_"))
+		v.d.declareFun(name, sorts, v.d.sortOf(rt))
+		v.opaqueUsed[sf.Name] = true
+		return Val{T: rt, S: fmt.Sprintf("(%s %s)", name, strings.Join(terms, " "))}
 	}
 	v.specDepth++
 	r := ne.eval(sf.Body)
